@@ -766,6 +766,13 @@ func (r *Runner) resolveBinaryExpression(ctx context.Context, expr *BinaryExpres
 		if isListOrMap(v1) && isListOrMap(v2) {
 			return nil, fmt.Errorf("cannot compare %T with %T: < > <= >= do not apply to arrays and maps", v1, v2)
 		}
+	case SK_EqualsEquals, SK_ExclamationEquals, SK_EqualsEqualsEquals, SK_ExclamationEqualsEquals:
+		// the same for == != === !==: two arrays or maps of one Go type were refused (Go cannot compare
+		// them), two of different types - '[1] == this', a []interface{} against a []int - answered false
+		// (!= true) without an error
+		if isListOrMap(v1) && isListOrMap(v2) && !IsNull(v1) && !IsNull(v2) {
+			return nil, fmt.Errorf("cannot compare %T with %T: == != === !== do not apply to arrays and maps", v1, v2)
+		}
 	}
 	switch expr.Operator.Token {
 	case SK_LessThan: // <
